@@ -2,7 +2,7 @@
 
 import random
 
-from eliot import add_destinations, register_exception_extractor, remove_destination
+from eliot import add_destinations, register_exception_extractor, remove_destination, start_action
 
 from vf import excs, gen
 from vf.gen import json_equal
@@ -29,6 +29,10 @@ CLASSMAP = dict(excs.POOL, BaseException=BaseException, Exception=Exception, Loo
 
 
 class ExtractorBoom(Exception):
+    pass
+
+
+class HelperError(Exception):
     pass
 
 
@@ -145,6 +149,15 @@ def run_case(spec):
                     # fail with a class that other (possibly failing) extractors are registered for: cycles must not recurse
                     raise excs.make(["ValueError", "KeyError", "UserError", "RuntimeError", "OSError"][len(name) % 5], "extractor for %s failed" % name)
                 raise ExtractorBoom("extractor for %s failed" % name)
+            if calls["n"] % 3 == 0:
+                # an extractor that gathers its facts through a helper which is itself logged as an action - and fails: that inner
+                # failed action is entitled to the fields of ITS exception's extractor like any other
+                calls["helpers"] = calls.get("helpers", 0) + 1
+                try:
+                    with start_action(action_type="ext:helper"):
+                        raise HelperError("helper of the extractor for %s failed" % name)
+                except HelperError:
+                    pass
             out = {"ext_" + name: [name, len(type(e).__mro__)], "ext_common": name}
             if len(name) % 2:
                 # field names eliot itself uses on failed ends: the truthful class name and text must win
@@ -152,6 +165,7 @@ def run_case(spec):
             return out
         return extractor
 
+    register_exception_extractor(HelperError, lambda e: {"helper_code": 7})
     for name, kind in regs.items():
         register_exception_extractor(CLASSMAP[name], make_extractor(name, kind))
     registry = dict((CLASSMAP[n], (n, k)) for n, k in regs.items())
@@ -219,7 +233,15 @@ def run_case(spec):
     starts = {}
     ends = {}
     tb_extractor = 0
+    helper_ends = 0
     for m in msgs:
+        if m.get("action_type") == "ext:helper":
+            if m.get("action_status") != "started":
+                helper_ends += 1
+                if m.get("action_status") != "failed" or m.get("helper_code") != 7 or m.get("exception") != excs.qualname(HelperError):
+                    problems.append("an action that failed inside an exception extractor was logged as %r without its own extractor's fields: %r" % (
+                        m.get("action_status"), {k: v for k, v in m.items() if k not in ("timestamp", "task_uuid", "task_level")}))
+            continue
         if "action_type" in m:
             key = (m["task_uuid"], tuple(m["task_level"][:-1]))
             if m.get("action_status") == "started":
@@ -280,6 +302,9 @@ def run_case(spec):
     c["actions_checked"] = len(gt)
     c["failed_actions"] = sum(1 for n in gt.values() if n["status"] == "failed")
     c["extractor_calls"] = calls["n"]
+    c["actions_failed_inside_extractors"] = calls.get("helpers", 0)
+    if helper_ends != calls.get("helpers", 0):
+        problems.append("%d helper actions failed inside extractors, %d end messages for them" % (calls.get("helpers", 0), helper_ends))
     c["extractor_raises"] = calls["raised"]
     c["repeated_finish_calls"] = it.counters.get("extra_finish", 0)
     c["late_registrations"] = len(late)
